@@ -87,6 +87,7 @@ func runC06(p *core.Prog, r *core.Result) {
 		"R6.11 one registry key per module file: where the file a module executes is derived from its label with a default (an empty name means BUILD.dawn), every label that reaches the registry has had the same default applied - otherwise the label as written and the explicit one are two keys for one file, and the file executes twice",
 		"R6.10 done ends every wait: the field the wait loop tests is set by done to a constant that makes the loop exit (not to a result value that can be nil for a module that failed before running)",
 		"R6.7 the loader that registered a module publishes its result (done) on every exit, including failures before execution",
+		"R6.12 no result shared between module loads is memoised under a key that does not determine it: every Store/LoadOrStore on a sync.Map field in package dawn is keyed by everything (and the whole of everything) its value is computed from, and read under the key it is written under - otherwise what a module resolves to depends on which loader filled the cache first (the rule is R10.1's, which is exercised on the resolver's caches on every run; package dawn holds no such cache on the pinned tree)",
 	}
 	r.NotDecided = []string{"termination and deadlock-freedom under every interleaving of the loader goroutines", "equality of the resulting target and flag sets across interleavings"}
 
@@ -468,6 +469,11 @@ func runC06(p *core.Prog, r *core.Result) {
 	r.Floor("R6.10", nEnd, 1, "stores in done to the state the wait loop tests")
 	// R6.11 the registry key determines the file
 	checkRegistryKeyCanonical(p, r, loadModule)
+
+	// ---- R6.12 caches shared between loaders
+	nDawnCaches := checkSyncMapCaches(p, r, "R6.12", pkgRoot, "")
+	nres := checkSyncMapCaches(p, core.NewResult("scratch"), "R6.12", pkgMvs, "Resolver")
+	r.Check(nres >= 1, "R6.12", "rule-exercised", "-", fmt.Sprintf("%d sync.Map cache store(s) in package dawn checked; the rule matched %d store(s) of the resolver's caches (positive control)", nDawnCaches, nres), "the cache-key rule matches nothing any more, not even the resolver's caches: it would pass vacuously")
 	// data/err are only written in done (and read in wait after the loop)
 	for _, fn := range p.ModuleFuncs() {
 		core.Instrs(fn, func(in ssa.Instruction) {
